@@ -41,7 +41,7 @@ func init() {
 				{name: "script", n: n, perChild: n / 16, timeout: 20 * time.Minute},
 				{name: "conc", n: m, perChild: m / 16, timeout: 20 * time.Minute, env: []string{"VERIF_HOOK=chaos", "VERIF_HOOK_PROB=30", "VERIF_HOOK_MAXUS=100"}},
 				{name: "conc-plain", n: m / 2, perChild: m / 32, timeout: 20 * time.Minute},
-				{name: "directed", n: 4, perChild: 4, timeout: 5 * time.Minute},
+				{name: "directed", n: 8, perChild: 4, timeout: 5 * time.Minute},
 			}
 		},
 		run: func(c *caseCtx) caseResult {
@@ -489,7 +489,81 @@ func (p *parentOf) Receive(c *actor.Context) {
 
 // c07Known reproduces the open finding deterministically and verifies that the
 // failure has exactly the listed signature.
+// c07Nobody: stop requests for PIDs nobody answers to - never spawned, already stopped, naming another
+// node (on an engine without and with a remote), nil. Every one of the returned contexts becomes done, and nobody is stopped by them.
+func c07Nobody(c *caseCtx) (res caseResult) {
+	wd := watchdog(c.tier)
+	var e *actor.Engine
+	var err error
+	withRemote := c.n%2 == 1
+	if withRemote {
+		e, err = actor.NewEngine(actor.NewEngineConfig().WithRemote(&recRemoter{addr: "127.0.0.1:4000", got: map[[2]string][]esEvent{}}))
+	} else {
+		e, err = actor.NewEngine(actor.NewEngineConfig())
+	}
+	if err != nil {
+		res.inconclusive("engine setup: %v", err)
+		return
+	}
+	st := newConcState()
+	live := e.Spawn(func() actor.Receiver { return &concActor{st: st} }, "conc", actor.WithID("live"))
+	gone := e.SpawnFunc(func(*actor.Context) {}, "conc", actor.WithID("gone"))
+	select {
+	case <-e.Poison(gone).Done():
+	case <-time.After(wd):
+		res.inconclusive("actor did not stop")
+		return
+	}
+	targets := map[string]*actor.PID{
+		"never spawned":   actor.NewPID(e.Address(), "conc/never"),
+		"already stopped": gone,
+		"on another node": actor.NewPID("10.9.8.7:4000", "worker/1"),
+		"nil":             nil,
+	}
+	res.Desc = fmt.Sprintf("directed: stop requests for PIDs nobody answers to (engine with a remote: %v)", withRemote)
+	for what, pid := range targets {
+		for _, graceful := range []bool{true, false} {
+			var ctx context.Context
+			if graceful {
+				ctx = e.Poison(pid)
+			} else {
+				ctx = e.Stop(pid)
+			}
+			select {
+			case <-ctx.Done():
+			case <-time.After(wd / 4):
+				if rest, where := atRest(3 * time.Second); rest {
+					res.violate("the context of a stop request (graceful=%v) for a PID %s (%v) never became done: the process is at rest (%s) (%s)", graceful, what, pid, where, res.Desc)
+				} else {
+					res.inconclusive("context for a PID %s not done (%s)", what, where)
+				}
+				return
+			}
+		}
+	}
+	// the live local actor was none of their business
+	probe := make(chan struct{})
+	e.Send(live, &concMsg{ID: 1})
+	go func() {
+		waitFor(wd, func() bool { st.mu.Lock(); defer st.mu.Unlock(); return st.handled[1] > 0 })
+		close(probe)
+	}()
+	<-probe
+	st.mu.Lock()
+	h := st.handled[1]
+	st.mu.Unlock()
+	if h == 0 || atomic.LoadInt32(&st.stoppedCount) > 0 {
+		res.violate("stop requests for PIDs nobody answers to stopped a bystander (handled=%d, Stopped=%d)", h, atomic.LoadInt32(&st.stoppedCount))
+	}
+	res.count("stop_requests_for_nobody", int64(2*len(targets)))
+	res.Sig = sigHash("nobody", withRemote)
+	return res
+}
+
 func c07Known(c *caseCtx) (res caseResult) {
+	if c.n%4 >= 2 {
+		return c07Nobody(c)
+	}
 	wd := watchdog(c.tier)
 	e, _, _, err := newMonitoredEngine()
 	if err != nil {
